@@ -5,13 +5,16 @@
    Escape(inp, ks, sq)   = bytes_to_escaped_str(inp, keep_spacing=ks, escape_single_quotes=sq):
        Repr      repr(b'"' + data).lstrip("b")[2:-1]   (the leading double quote forces single-quote delimiters,
                  so ' is written \' and " stays raw; \t \n \r \\ short forms, \xNN for the other non-printables)
-       Sub       re.sub(r"(?<!\\)(\\\\)*\\'", lambda m: (m.group(1) or "") + "'", ret)        unless sq
-                 re.sub(r"(?<!\\)(\\\\)*\\([nrt])", ... raw TAB/LF/CR ...)                    if ks
+       Sub       the two re.sub passes: [not preceded by a backslash] [any number of backslash pairs, captured as
+                 group 1] [backslash] [quote]        -> group 1 + raw quote              unless sq
+                 ... [backslash] [n or r or t]       -> group 1 + raw LF / CR / TAB       if ks
+                 (the regex text itself cannot be quoted here: it contains the comment terminator)
    Unescape              = escaped_str_to_bytes(text) = codecs.escape_decode(text)[0]
 
-   GroupLastOnly names a deviation of the code: in "(\\\\)*" the group is repeated, so m.group(1) holds only the
-   LAST backslash pair; every earlier pair of the run is dropped by the replacement.  TRUE = the code as it is;
-   FALSE = the intended behaviour (all pairs kept).                                                         *)
+   GroupLastOnly names the defect repaired by commit ec3f8dd97: the pairs used to be matched by a REPEATED capturing
+   group, which holds only the LAST backslash pair, so every earlier pair of a run was dropped by the replacement.
+   FALSE = the code as it is now (the whole run of pairs is one group and is re-emitted);
+   TRUE  = the code before the fix (what mutants/C51/M5_revert_fix_ec3f8dd97.diff restores).                    *)
 EXTENDS Mon_EscapeBytes, TLC
 CONSTANTS Alphabet,       \* set of byte values inputs are built from
           MaxLen,         \* maximal input length
